@@ -43,6 +43,6 @@ def argsRegex : Option String := some " (\\w+)=(\\w+|<>)"
 def sliceSites : List String := ["arg[0:3]", "arg[3:]", "arg[:idx]", "args[\"SIZE\"]", "args[0]", "args[1]", "args[strings.ToUpper(m[1])]", "commands[cmd]", "line[0:l]", "line[l+1:]", "m[1]", "m[2]"]
 
 /-- statements of StoreManager.Deliver the model relies on (present ones) -/
-def deliverShape : List String := ["enmime.DecodeHeaders(source)", "s.ExtHost.Events.BeforeMessageStored.Emit(inbound)", "recip.ShouldStore()", "s.Store.AddMessage(delivery)", "s.ExtHost.Events.AfterMessageStored.Emit(&event)", "fmt.Sprintf(\"%s  for <%s>; %s\\r\\n\", recvdHeader, mb, tstamp)", "fmt.Sprintf(\"Return-Path: <%s>\\r\\n\", from.Address.Address)", "io.MultiReader(strings.NewReader(returnPath), strings.NewReader(recvd), bytes.NewReader(source))"]
+def deliverShape : List String := ["call enmime.DecodeHeaders", "call .BeforeMessageStored.Emit", "call .ShouldStore", "call .Store.AddMessage", "call .AfterMessageStored.Emit", "call io.MultiReader", "format %s  for <%s>; %s\r\n", "format Return-Path: <%s>\r\n"]
 
 end Ibx.Gen.Smtp
